@@ -145,3 +145,9 @@ Definition clean_join (root dest : string) : cj_err + string :=
   if existsb (fun p => String.eqb p "..") (split_on slash dest) then inl CJDotDot else
   if is_abs dest then inl CJAbs else
   inr (secure_join_lex (path_clean root) dest).
+
+(* ---- pkg/downloader/chart_downloader.go: the file name DownloadTo writes to (non-OCI) ----
+   name := filepath.Base(u.Path); after fix cd986f1 a path without a file name is refused. *)
+Definition download_name (upath : string) : option string :=
+  let name := path_base upath in
+  if String.eqb name "." || String.eqb name ".." || String.eqb name "/" then None else Some name.
